@@ -573,7 +573,7 @@ func init() {
 	// ------------------------------------------------------------------ C12
 	register(&Prop{
 		ID: "C12", Level: "exploration", QuickS: 25, ThoroughS: 420, Race: true,
-		Rule:        "seeded startup negotiations: startup packets with 1-8 key/value pairs (duplicates, empty values, an empty key in the middle, missing final terminator, missing value), configured global parameter maps (nil, empty, custom keys) and version strings, with and without authentication, CancelRequest as first packet / after an SSLRequest was declined; callbacks read ClientParameters, ServerParameters and AuthenticatedUsername back; E2 share: 2-5 connections of different users connect concurrently to one server sharing one user-supplied map, under seeded schedules and (race shard) under the -race build with the HB-transparent scheduler; mixed-case keys, server_version configured through the map with and without a Version string, 2-4 connections served one after the other by the same server; the GlobalParameters option given twice (both user maps compared with their copies); sequential connections after a peer that vanished mid-reply; E2 variant: a CancelRequest on a connection accepted just before Server.Close; non-trivial = a session was established and at least one callback read the parameters back, or a cancel/malformed packet was refused; distinct = distinct case content hashes",
+		Rule:        "seeded startup negotiations: startup packets with 1-8 key/value pairs (duplicates, empty values, an empty key in the middle, missing final terminator, missing value), configured global parameter maps (nil, empty, custom keys) and version strings, with and without authentication, CancelRequest as first packet / after an SSLRequest was declined; callbacks read ClientParameters, ServerParameters and AuthenticatedUsername back; E2 share: 2-5 connections of different users connect concurrently to one server sharing one user-supplied map, under seeded schedules and (race shard) under the -race build with the HB-transparent scheduler; mixed-case keys, server_version configured through the map with and without a Version string, 2-4 connections served one after the other by the same server; the GlobalParameters option given twice (both user maps compared with their copies); sequential connections after a peer that vanished mid-reply; E2 variant: a CancelRequest on a connection accepted just before Server.Close; non-trivial = a session was established and at least one callback read the parameters back, or a cancel/malformed packet was refused; distinct = distinct case content hashes; variant look-alike-startup-packets: clients served one after the other whose startup packets have equal length and user names that collide under FNV-1a / FNV-1 / Adler-32 / multiply-by-31",
 		Components:  append(append([]string{}, e1Components...), "E2 share: seeded scheduler interleaves the connecting users; race shard: -race build, kernel synchronisation hidden from the detector"),
 		Assumptions: commonAssumptions,
 		Gen:         genC12,
@@ -680,6 +680,29 @@ func genC12(r *Rand, tier string) *Case {
 				return c
 			}
 		}
+	}
+	if r.Chance(1, 25) {
+		// two clients, one after the other, whose startup packets are of equal
+		// length and differ only in user names that collide under a popular string
+		// hash (FNV-1a, FNV-1, Adler-32, multiply-by-31): each is told, and its
+		// callbacks see, its own user
+		pairs := [][2]string{{"svc00720089", "svc01214000"}, {"svc00916628", "svc01054066"}, {"svc00000020", "svc00000101"}, {"svcAaBBAa", "svcBBAaBB"}, {"svcAa", "svcBB"}}
+		pr := pairs[r.Intn(len(pairs))]
+		if r.Bool() {
+			pr[0], pr[1] = pr[1], pr[0]
+		}
+		c := &Case{Variant: "look-alike-startup-packets", Server: ServerCfg{Limit: 4096}, Programs: map[string]*Program{}}
+		if r.Chance(1, 3) {
+			c.Server.MW = []MWSpec{{}}
+		}
+		db := r.Ident(3)
+		for _, u := range pr {
+			c.Conns = append(c.Conns, ConnCase{Steps: []Step{{Msgs: []pgwire.FMsg{startupMsg(u, db)}}, {Msgs: []pgwire.FMsg{{K: "Q", S1: "whoami"}, {K: "X"}}}}})
+		}
+		if r.Bool() {
+			c.Conns = append(c.Conns, c.Conns[0])
+		}
+		return c
 	}
 	c := &Case{Server: ServerCfg{Limit: r.PickInt(1000, 4096, 65536)}, Programs: map[string]*Program{}}
 	if r.Chance(1, 3) {
